@@ -600,3 +600,386 @@ func init() {
 			}
 		}})
 }
+
+func init() {
+	register(&Rule{ID: "C03.R1", Props: []string{"C03", "C12"}, Engine: "E7",
+		Title:   "decoder accesses are in bounds: every index, slice expression and fixed-width read in the region reachable from packet.unmarshal is proven from dominating length checks (linear facts; call-site preconditions to a fixpoint); unprovable sites are a reviewed table",
+		MinInst: 150,
+		Run:     runLengthGuards})
+}
+
+// lenguardReviewed: accesses the linear prover cannot discharge, each with the
+// manual argument and the guard that argument rests on (the guard is still
+// checked mechanically: it must dominate the access).
+type lgReview struct {
+	why      string
+	requires func(c *RuleCtx, in ssa.Instruction) bool
+}
+
+var lenguardReviewed = map[string]lgReview{
+	"chunkSelectiveAck.unmarshal|φoffset": {
+		"second loop: offset continues from the first loop (12+4·len(gaps)) and advances 4 per duplicate TSN; with len(raw) == 12+4·len(gaps)+4·len(dups) every read ends at or before len(raw)",
+		func(c *RuleCtx, in ssa.Instruction) bool {
+			// the exact-length equality must dominate
+			raw := c.field("chunkHeader", "raw")
+			return DominatedByExt(in, func(v ssa.Value, t bool) bool {
+				b, ok := v.(*ssa.BinOp)
+				if !ok {
+					return false
+				}
+				eq := (b.Op == token.EQL && t) || (b.Op == token.NEQ && !t)
+				return eq && lenOf(raw, nil)(b.X) && Derives(lenOf(c.field("chunkSelectiveAck", "duplicateTSN"), nil))(b.Y) && Derives(lenOf(c.field("chunkSelectiveAck", "gapAckBlocks"), nil))(b.Y)
+			})
+		}},
+	"normalizeIForwardTSNStreams|φnormalized": {
+		"indices stored in the map are len(normalized) taken immediately before the element is appended; the slice only grows, so every stored index stays in range",
+		func(c *RuleCtx, in ssa.Instruction) bool {
+			// every value put into the index map is len(normalized)
+			fn := in.Parent()
+			ok := false
+			forEachInstr(fn, func(x ssa.Instruction) {
+				if mu, isMU := x.(*ssa.MapUpdate); isMU {
+					if call, isCall := unconv(mu.Value).(*ssa.Call); isCall {
+						if b, isB := call.Call.Value.(*ssa.Builtin); isB && b.Name() == "len" {
+							ok = true
+							return
+						}
+					}
+					ok = false
+				}
+			})
+			return ok
+		}},
+	"normalizeIForwardTSNStreams|index>=0": {
+		"same argument: stored indices are len() values, hence non-negative",
+		func(c *RuleCtx, in ssa.Instruction) bool { return true }},
+	"paramRequestedHMACAlgorithm.unmarshal|φi": {
+		"i advances by 2 from 0 and len(raw) is even (odd lengths are rejected first), so i < len(raw) implies i+2 <= len(raw)",
+		func(c *RuleCtx, in ssa.Instruction) bool {
+			return DominatedByExt(in, func(v ssa.Value, t bool) bool {
+				b, ok := v.(*ssa.BinOp)
+				if !ok || b.Op != token.EQL || t {
+					return false
+				}
+				rem, ok := b.X.(*ssa.BinOp)
+				return ok && rem.Op == token.REM && IsConstInt(2)(rem.Y) && IsConstInt(1)(b.Y)
+			})
+		}},
+}
+
+func runLengthGuards(c *RuleCtx) {
+	pu := c.Fn("packet.unmarshal")
+	region := c.P.TransitiveCallees(pu)
+	roots := map[*ssa.Function]bool{pu: true}
+	obs := c.P.LengthGuards(region, roots)
+	ks := keyer{}
+	for _, o := range obs {
+		name := c.P.FuncName(o.Fn)
+		key := ks.key("bounds:" + name + ":" + o.What)
+		if o.OK {
+			c.Ok(key, c.Pos(o.Instr), "proven: "+o.Need.String()+" >= 0")
+			continue
+		}
+		reviewed := false
+		for rk, rv := range lenguardReviewed {
+			parts := strings.SplitN(rk, "|", 2)
+			if parts[0] == name && (strings.Contains(o.Need.String(), parts[1]) || strings.Contains(o.What, parts[1])) {
+				if rv.requires(c, o.Instr) {
+					c.Ok(key, c.Pos(o.Instr), "reviewed (guard verified): "+rv.why)
+				} else {
+					c.Fail(key, c.Pos(o.Instr), "reviewed argument no longer applies — its guard does not dominate the access: "+rv.why)
+				}
+				reviewed = true
+				break
+			}
+		}
+		if reviewed {
+			continue
+		}
+		c.Fail(key, c.Pos(o.Instr), "cannot prove "+o.What+" in bounds: need "+o.Need.String()+" >= 0 from the dominating checks; facts: "+o.Why)
+	}
+}
+
+// ---------------------------------------------------------------- C03.R2 decode-loop progress
+
+// lowerBoundOf: a conservative lower bound of an integer value (only what the
+// progress argument needs: constants, sums, getters of validated length fields).
+func (c *RuleCtx) lowerBoundOf(v ssa.Value, d int) int64 {
+	if d > 6 {
+		return -1 << 30
+	}
+	if k, ok := constInt(v); ok {
+		return k
+	}
+	v0 := v
+	v = unconv(v)
+	switch x := v.(type) {
+	case *ssa.BinOp:
+		switch x.Op {
+		case token.ADD:
+			return c.lowerBoundOf(x.X, d+1) + c.lowerBoundOf(x.Y, d+1)
+		case token.REM:
+			if k, ok := constInt(x.Y); ok && k > 0 && valueNonNegAssumingParams(c.P, x.X, 0) {
+				return 0
+			}
+		}
+	case *ssa.Call:
+		var callees []*ssa.Function
+		if x.Call.IsInvoke() {
+			callees = c.P.calleesOfInstr(x)
+		} else if sc := x.Call.StaticCallee(); sc != nil && c.P.inPkg(sc) && sc.Blocks != nil {
+			callees = []*ssa.Function{sc}
+		}
+		if b, ok := x.Call.Value.(*ssa.Builtin); ok && b.Name() == "len" {
+			return 0
+		}
+		if len(callees) > 0 {
+			lb := int64(1 << 30)
+			for _, fn := range callees {
+				for _, r := range allReturns(fn) {
+					res := retResults(r)
+					if len(res) == 0 {
+						return -1 << 30
+					}
+					k := c.lowerBoundOf(res[0], d+1)
+					if k < lb {
+						lb = k
+					}
+				}
+			}
+			if lb < 1<<29 {
+				return lb
+			}
+		}
+	case *ssa.UnOp:
+		if f, _ := loadedField(x); f != nil {
+			if k, ok := c.validatedFieldLB(f); ok {
+				return k
+			}
+		}
+	}
+	if valueNonNeg(c.P, v0, 0) {
+		return 0
+	}
+	return -1 << 30
+}
+
+var validatedLBMemo = map[*types.Var]int64{}
+
+// validatedFieldLB: field f is only ever left holding a value >= k when its
+// writer returns successfully (decoders reject smaller values before returning nil).
+func (c *RuleCtx) validatedFieldLB(f *types.Var) (int64, bool) {
+	if k, ok := validatedLBMemo[f]; ok {
+		return k, k > -1<<29
+	}
+	validatedLBMemo[f] = -1 << 30
+	best := int64(1 << 30)
+	ws := c.P.Writes(f)
+	if len(ws) == 0 {
+		return 0, false
+	}
+	for _, a := range ws {
+		if a.Kind != AccWrite {
+			return 0, false
+		}
+		// value itself bounded (encoder: len(raw)+4)
+		if k := c.lowerBoundOf(a.Val, 3); k > -1<<29 && k >= 1 {
+			if k < best {
+				best = k
+			}
+			continue
+		}
+		// decoder: every successful return is dominated by  value >= k
+		root := unconv(a.Val)
+		for {
+			if cv, ok := root.(*ssa.Convert); ok {
+				root = cv.X
+				continue
+			}
+			break
+		}
+		var k int64 = -1 << 30
+		okAll := true
+		for _, r := range allReturns(a.Fn) {
+			res := retResults(r)
+			if len(res) == 0 || !isNilConst(res[len(res)-1]) {
+				continue // error return
+			}
+			found := false
+			for _, fct := range DomFacts(r.Block()) {
+				b, ok := fct.Cond.(*ssa.BinOp)
+				if !ok {
+					continue
+				}
+				op := b.Op
+				if !fct.Taken {
+					op = invertOp(op)
+				}
+				kk, isK := constInt(b.Y)
+				if !isK {
+					continue
+				}
+				lhs := unconv(b.X)
+				for {
+					if cv, ok := lhs.(*ssa.Convert); ok {
+						lhs = cv.X
+						continue
+					}
+					break
+				}
+				same := lhs == root
+				if lf, _ := loadedField(lhs); lf == f {
+					same = true
+				}
+				if !same {
+					continue
+				}
+				if op == token.GEQ && kk > k {
+					k, found = kk, true
+				}
+				if op == token.GTR && kk+1 > k {
+					k, found = kk+1, true
+				}
+			}
+			if !found {
+				okAll = false
+			}
+		}
+		if !okAll || k < 1 {
+			return 0, false
+		}
+		if k < best {
+			best = k
+		}
+	}
+	if best > 1<<29 {
+		return 0, false
+	}
+	validatedLBMemo[f] = best
+	return best, true
+}
+
+func init() {
+	register(&Rule{ID: "C03.R2", Props: []string{"C03"}, Engine: "E7",
+		Title:   "decode loops make progress: every loop in the decode region whose exit test reads a counter advances that counter by a provably positive amount on every back edge",
+		MinInst: 10,
+		Run: func(c *RuleCtx) {
+			region := c.P.TransitiveCallees(c.Fn("packet.unmarshal"))
+			ks := keyer{}
+			for fn := range region {
+				name := c.P.FuncName(fn)
+				done := map[*ssa.BasicBlock]bool{}
+				for _, b := range fn.Blocks {
+					if done[b] {
+						continue
+					}
+					lp := loopBlocks(b)
+					if len(lp) == 0 {
+						continue
+					}
+					for x := range lp {
+						done[x] = true
+					}
+					// exit tests: If in the loop with a successor outside
+					var counters []*ssa.Phi
+					hasExit := false
+					for x := range lp {
+						ifi, ok := x.Instrs[len(x.Instrs)-1].(*ssa.If)
+						if !ok {
+							continue
+						}
+						exits := false
+						for _, s := range x.Succs {
+							if !lp[s] {
+								exits = true
+							}
+						}
+						if !exits {
+							continue
+						}
+						hasExit = true
+						// φ of this loop (header in lp) reachable through the condition
+						var walk func(v ssa.Value, d int)
+						walk = func(v ssa.Value, d int) {
+							if d > 6 {
+								return
+							}
+							switch y := unconv(v).(type) {
+							case *ssa.Phi:
+								if lp[y.Block()] {
+									counters = append(counters, y)
+								}
+							case *ssa.BinOp:
+								walk(y.X, d+1)
+								walk(y.Y, d+1)
+							case *ssa.Call:
+								for _, a := range y.Call.Args {
+									walk(a, d+1)
+								}
+							}
+						}
+						walk(ifi.Cond, 0)
+					}
+					key := ks.key("progress:" + name)
+					pos := c.P.Pos(b.Instrs[0].Pos())
+					if !hasExit {
+						c.Fail(key, pos, "loop without an exit edge in a decoder")
+						continue
+					}
+					if len(counters) == 0 {
+						// range-over-map/iterator loops: bounded by the collection
+						isRange := false
+						for x := range lp {
+							for _, in := range x.Instrs {
+								if _, ok := in.(*ssa.Next); ok {
+									isRange = true
+								}
+							}
+						}
+						c.Check(isRange, key, pos, "iterator loop bounded by its collection", "loop exit does not depend on any loop counter: cannot argue termination")
+						continue
+					}
+					okAll := true
+					why := ""
+					for _, phi := range counters {
+						for i, ed := range phi.Edges {
+							pred := phi.Block().Preds[i]
+							if !lp[pred] {
+								continue // entry edge
+							}
+							bo, ok := unconv(ed).(*ssa.BinOp)
+							if !ok {
+								if unconv(ed) == ssa.Value(phi) {
+									continue // unchanged on this path (another counter must move; checked separately)
+								}
+								// nested φ (e.g. continue paths): accept if it resolves to phi±d forms
+								leaves := phiLeaves(ed)
+								allOK := len(leaves) > 0
+								for _, l := range leaves {
+									lb, isB := unconv(l.Val).(*ssa.BinOp)
+									if l.Val == ssa.Value(phi) {
+										allOK = false
+									} else if !isB || (lb.Op != token.ADD && lb.Op != token.SUB) || c.lowerBoundOf(lb.Y, 0) < 1 {
+										allOK = false
+									}
+								}
+								if !allOK {
+									okAll, why = false, "counter "+phi.Comment+" is not advanced on a back edge"
+								}
+								continue
+							}
+							if (bo.Op != token.ADD && bo.Op != token.SUB) || unconv(bo.X) != ssa.Value(phi) {
+								// e.g. tsn += nonZeroBit-offset : allow φ + (expr) with expr lower bound >= 1
+								okAll, why = false, "counter "+phi.Comment+" updated by a non-additive expression"
+								continue
+							}
+							if lb := c.lowerBoundOf(bo.Y, 0); lb < 1 {
+								okAll, why = false, fmt.Sprintf("counter %s advances by %s, whose lower bound %d is not positive: a crafted length of 0 makes the decoder spin", phi.Comment, shortValue(c.P, bo.Y), lb)
+							}
+						}
+					}
+					c.Check(okAll, key, pos, fmt.Sprintf("%d counter(s) advance by >= 1 on every back edge", len(counters)), why)
+				}
+			}
+		}})
+}
